@@ -24,6 +24,7 @@ func init() {
 			"R07.4 also: the loop over the header's lines is never left early; R07.5 also: every context a memoising accessor writes into derives from the Context() of the request it was given. " +
 			"R07.4 also: the white-space class of the octet table is exactly SP, HT, CR, LF. " +
 			"R07.2 also: the selection loops of NegotiateContentEncoding are left only when their elements are exhausted. " +
+			"R07.4 also: the media-range scanner stops early only at an octet that is not '/'. " +
 			"NOT decided: the lexicographic maximum over (q, specificity, position) — a flipped > / >= is not claimed to be caught.",
 		Run: runC07,
 	})
